@@ -25,6 +25,10 @@ CHECKS = {
    "TLA+ spec HeadingIDs.tla model-checked by TLC; every enumerated heading sequence concretised into documents and converted by the real library on fresh and long-used instances; observed id lists judged by the TLA+ acceptor TraceHeadingIDs.tla",
    "TLC enumerates every sequence of up to 5 (thorough: 6) headings over 7 slug classes closed under the suffix operation (a, a-1, a-1-1, a-2, heading, heading-1, empty) and checks NonEmpty, Distinct and HistoryIndependent on the model (with negative controls); each sequence becomes 3 (7) real documents (ATX/Setext, levels, closing sequences, block quote / list item / nested containers, several texts per slug class) converted under 4 configurations, each on a fresh instance and on an instance that has converted every earlier document; TLC judges the observed ids. 6000 (100000) mutated documents go through the same acceptor. Exhaustive over the model's sequences; model checking with conformance replay.",
    "TLC, Json/IOUtils; strict HTML tokenizer; AutoHeadingID without attribute syntax", "DESIGN.md 3.4, 5/C15"),
+ "C14": ("model_checking",
+   "TLA+ spec Writer.tla (bufio protocol, sticky error, final Flush) model-checked by TLC; every enumerated (write-size plan, fail offset, failure kind) executed on the real renderer; runs of real documents with the destination failing at every byte offset recorded and judged by the TLA+ acceptor TraceWriter.tla",
+   "TLC explores every plan of up to 4 writes of 1,2,4,5,9 units (total <= 12, buffer 4 units) x every fail offset x short/zero failure and checks Prefix, ErrorSurfaces and termination (negative controls: dropped flush error, flush skipped when nothing is buffered); all ~6800 plans are executed on the real renderer with unit = 1024 bytes (exact comparison with the model is diagnostic) and at off-by-one offsets through four destination kinds; 60+ (600+) real documents including outputs of 20-30 KiB are converted with the destination failing at EVERY byte offset (stride + buffer-boundary neighbourhoods for the large ones), alternating Convert/Render, short/zero failures and plain, bufio(16/4096/65536) and custom BufWriter destinations; TLC judges each recorded run. Fault enumeration is exhaustive over offsets for the small documents.",
+   "TLC, Json/IOUtils; the fault-injecting writer and the byte comparison with the fault-free output are harness code", "DESIGN.md 3.10, 5/C14"),
 }
 
 NOT_YET = "check not built yet in this revision of /verif (see DESIGN.md section 5 for the planned TLA+ decision procedure)"
